@@ -663,6 +663,9 @@ func (l *List) Combine3(sta funcGen.Stack[Value]) (*List, error) {
 
 func (l *List) CombineN(sta funcGen.Stack[Value]) (*List, error) {
 	if n, ok := sta.Get(1).(Int); ok {
+		if n < 1 {
+			return nil, errors.New("first argument in combineN needs to be positive")
+		}
 		f, err := ToFunc("combineN", sta, 2, 1)
 		if err != nil {
 			return nil, err
@@ -729,6 +732,9 @@ func (l *List) IIrApply(sta funcGen.Stack[Value]) (*List, error) {
 			return nil, err
 		}
 		function, err := funcFromMap(m, "filter", 3)
+		if err != nil {
+			return nil, err
+		}
 		return NewListFromSizedIterable(func(st funcGen.Stack[Value]) iterator.Producer[Value] {
 			return iterator.IirMap[Value, Value](l.iterable(st),
 				func(item Value) (Value, error) {
